@@ -302,6 +302,41 @@ impl Engine for C04 {
             }
         }
 
+        // ---------------- a diff that has no class entry at all still carries its set-level comment action (the textual form
+        // cannot express it, the in-memory form can): apply(diff(A,B),A) == B for two class-less sets that differ in the
+        // comment of the set, and a mismatching old comment is refused (missed seeded change C04-17: "empty" diffs skipped)
+        if p.over_indent % 4 == 1 || p.text_style % 16 == 5 {
+            use quill::tree::mappings::JavadocMapping;
+            let empty = MapSet { ns: p.states[0].ns.clone(), doc: None, classes: Default::default() };
+            let ns1 = empty.ns[1].clone();
+            let (mut a, mut b): (Q, Q) = (q_of(&empty), q_of(&empty));
+            a.javadoc = if p.text_style % 2 == 0 { None } else { Some(JavadocMapping("old words".into())) };
+            b.javadoc = Some(JavadocMapping("new words".into()));
+            st.probe("set_level_comment_diff");
+            match no_panic(|| MappingsDiff::diff(&a, &b)) {
+                Ok(Ok(d)) => {
+                    let target = a.clone();
+                    match no_panic(|| d.apply_to::<2, Ns, Ns>(target, &ns1)) {
+                        Ok(Ok(r)) => {
+                            if r.javadoc != b.javadoc {
+                                out.push(Violation::new("T0", "semantic-mismatch", "apply(diff(A,B),A).set-comment", format!("{:?} instead of {:?}", r.javadoc, b.javadoc)));
+                            }
+                        }
+                        Ok(Err(e)) => out.push(Violation::new("T0", "refused-wellformed", "apply(diff(A,B),A).set-comment", format!("{e:#}"))),
+                        Err(pm) => out.push(Violation::new("T0", "panic", format!("apply:{}", panic_path(&pm)), pm)),
+                    }
+                    // the same diff on a target whose comment is something else: the stated old value does not match
+                    let mut other: Q = q_of(&empty);
+                    other.javadoc = Some(JavadocMapping("something else".into()));
+                    if let Ok(Ok(r)) = no_panic(|| d.apply_to::<2, Ns, Ns>(other, &ns1)) {
+                        out.push(Violation::new("T0", "accepted-inconsistent-diff", "apply.set-comment", format!("a set-level comment change was applied to a set whose comment is something else (result {:?})", r.javadoc)));
+                    }
+                }
+                Ok(Err(e)) => out.push(Violation::new("T0", "refused-wellformed", "diff(A,B).set-comment", format!("{e:#}"))),
+                Err(pm) => out.push(Violation::new("T0", "panic", format!("diff:{}", panic_path(&pm)), pm)),
+            }
+        }
+
         // ---------------- one line of the first diff's text one tab too deep
         if p.over_indent != 0 && k >= 1 {
             let d1 = ref_diff(&p.states[0], &p.states[1]).expect("generated states are diffable");
